@@ -1176,16 +1176,16 @@ def signature(s, o):
         return mode + ": summary missing"
     if not cfg[1] and not intercepting(tests) and len(ob["reps"]) == n_reps(cfg):
         for r, rp in enumerate(ob["reps"]):
+            ran = set(int(e[0], 16) for e in rp["ev"])
+            for i, t in enumerate(tests):
+                if (not cfg[2] or t["sel"]) and (not t["ign"] or cfg[3]) and any(t["ph"]) and i not in ran:
+                    return mode + ": a test that is counted as run executed none of its setup / body / teardown" + (" (an ignored test run with -ri)" if t["ign"] else "")
             subs = want_rep(cfg, tests, r, True)[2]
             gsub = [tuple(int(x, 16) for x in u) for u in rp["sb"]]
             if gsub != subs:
                 if any(u not in subs for u in gsub):
                     return mode + ": inside a try block a statement ran that must not (behind a failing check, or a handler entered for the check's exit)"
                 return mode + ": inside a try block a statement that must run did not"
-            ran = set(int(e[0], 16) for e in rp["ev"])
-            for i, t in enumerate(tests):
-                if (not cfg[2] or t["sel"]) and (not t["ign"] or cfg[3]) and any(t["ph"]) and i not in ran:
-                    return mode + ": a test that is counted as run executed none of its setup / body / teardown" + (" (an ignored test run with -ri)" if t["ign"] else "")
             wev = want_rep(cfg, tests, r, "all")["events"]
             gev = [tuple(int(x, 16) for x in e[:3]) for e in rp["ev"]]
             if gev != wev:
